@@ -35,7 +35,7 @@ type c11Program struct {
 	Files    map[string]string `json:"files"`
 	Args     []string          `json:"args"`
 	ReadOnly bool              `json:"read_only"`
-	Created  []string          `json:"created,omitempty"` // tables / out files the program creates when it completes
+	Created  []string          `json:"created,omitempty"`   // tables / out files the program creates when it completes
 	HoldLock string            `json:"hold_lock,omitempty"` // file on which the harness holds an exclusive flock(2) during the run (a foreign live holder)
 	WantFail bool              `json:"want_fail,omitempty"` // the undisturbed run is expected to fail (error / timeout)
 	MapOrder string            `json:"map_order"`           // VERIF_MAPORDER of every run of this program ("" = all map ranges in sorted key order)
